@@ -1,0 +1,32 @@
+//go:build verif
+
+package hopserver
+
+import (
+	"io/fs"
+
+	"hop.computer/hop/authgrants"
+	"hop.computer/hop/keys"
+	"hop.computer/hop/transport"
+)
+
+// VerifSetFS installs any fs.FS (SetFSystem only takes a MapFS), so that the
+// verification harness can inject open and read errors.
+func (s *HopServer) VerifSetFS(f fs.FS) { s.fsystem = f }
+
+// VerifNewSession runs one session on an accepted transport handle, as Serve
+// does for every connection (verification harness only).
+func (s *HopServer) VerifNewSession(h *transport.Handle) { s.newSession(h) }
+
+// VerifGrants returns a copy of the stored authorization grants.
+func (s *HopServer) VerifGrants() map[string]map[keys.DHPublicKey][]authgrants.Authgrant {
+	return s.agMap.VerifSnapshot()
+}
+
+// VerifHasKey reports whether the transport-layer key set holds k.
+func (s *HopServer) VerifHasKey(k keys.DHPublicKey) bool {
+	if s.keyStore == nil {
+		return false
+	}
+	return s.keyStore.VerifHas(k)
+}
